@@ -132,6 +132,12 @@ func genD(r *vf.Run, pool *basePool, idx, k int) *input {
 			// the directed plan "size-lie").
 			o.Len = []int64{-1, 0, size * 2, size * 3, -(1 << 62)}[rng.Intn(5)]
 		}
+		if lim := 400 * p.ChunkSize; o.Len > lim {
+			// the blob code handles the chunks of one call quadratically (regionSet.add,
+			// sync key): with 1- or 7-byte chunks a 64 KiB read is tens of CPU-seconds of
+			// finite work once the retrying production client multiplies it
+			o.Len = lim
+		}
 		o.Conc = rng.Pick(1, 1, 2, 4)
 		p.Ops = append(p.Ops, o)
 	}
